@@ -12,7 +12,8 @@ Import ListNotations.
 Open Scope Z_scope.
 
 Definition lsafe (f : dev -> dev) : Prop :=
-  forall x, d_produced (f x) = d_produced x /\ d_level (f x) = d_level x /\ d_value_received (f x) = d_value_received x /\ d_kind (f x) = d_kind x.
+  forall x, d_produced (f x) = d_produced x /\ d_level (f x) = d_level x /\ d_value_received (f x) = d_value_received x /\ d_kind (f x) = d_kind x /\
+            d_accepts (f x) = d_accepts x.
 Definition lemit_ok (c : fcmd) : Prop := match c with FData l _ _ => l <> L_SUPPLIED /\ l <> L_LEVEL /\ l <> L_RECEIVED | _ => True end.
 
 Inductive lstep (nw : Z) : fw -> fw -> Prop :=
@@ -22,13 +23,16 @@ Inductive lstep (nw : Z) : fw -> fw -> Prop :=
 | l_dead w w' : okf w' = false -> lstep nw w w'
 | l_everywhere w pid f : lstep nw w (upd_part_everywhere pid f w)
 | l_supplied w d v id : amem d (f_devs w) = true -> lstep nw w (data (updd w d (t_supplied nw v)) L_SUPPLIED d [nw; id])
-| l_accept_buffer w d it1 :
-    lstep nw w (let w' := updd w d (t_accept_buffer nw it1) in data w' L_LEVEL d [nw; d_level (getd w' d)])
+| l_accept_buffer w d it1 : d_kind (getd w d) = KBuffer ->
+    lstep nw w (rec_part (let w' := updd w d (t_accept_buffer nw it1) in data w' L_LEVEL d [nw; d_level (getd w' d)]) L_RECEIVED d nw it1)
 | l_buf_pop w d :
     lstep nw w (let w2 := updd w d (t_buf_pop nw) in data w2 L_LEVEL d [nw; d_level (getd w2 d)])
-| l_received w d it1 : d_kind (getd w d) <> KSink -> lstep nw w (rec_part w L_RECEIVED d nw it1)
-| l_accept_sink w d it1 : amem d (f_devs w) = true -> d_kind (getd w d) = KSink ->
-    lstep nw w (rec_part (updd w d (t_accept_sink nw it1)) L_RECEIVED d nw it1).
+| l_accept w d f it1 :
+    (let x := getd w d in let x' := getd (updd w d f) d in
+     d_kind x' = d_kind x /\ d_produced x' = d_produced x /\ d_level x' = d_level x /\
+     (amem d (f_devs w) = true -> d_accepts x' = 1 + d_accepts x) /\
+     (d_kind x = KSink -> d_value_received x' = item_value it1 + d_value_received x)) ->
+    lstep nw w (rec_part (updd w d f) L_RECEIVED d nw it1).
 
 Inductive RL (nw : Z) : fw -> fw -> Prop :=
 | RL_refl w : RL nw w w
@@ -323,23 +327,32 @@ Proof.
   - apply RL_batcher_try_move.
 Qed.
 
-(** taking a part in, up to and including its received-part record: one compound step for a sink (counters and record together) *)
+(** taking a part in, up to and including its received-part record: one compound step (the accept counter, a sink's counters, a buffer's
+    level with its record — and the received-part record) *)
+Lemma accept_fields nw0 it x : d_kind (t_accept nw0 it x) = d_kind x /\ d_produced (t_accept nw0 it x) = d_produced x /\
+  d_level (t_accept nw0 it x) = d_level x /\ d_accepts (t_accept nw0 it x) = 1 + d_accepts x /\ d_value_received (t_accept nw0 it x) = d_value_received x.
+Proof. unfold t_accept, dev_set_wait. destruct (d_wait_since _); repeat split; reflexivity. Qed.
+
 Lemma RL_accept_first w d it1 k : k = d_kind (getd w d) -> RL w (rec_part (accept_first nw k w d it1) L_RECEIVED d nw it1).
 Proof.
   intro K. unfold accept_first.
-  assert (NS : forall f, lsafe f -> d_kind (getd w d) <> KSink -> RL w (rec_part (updd w d f) L_RECEIVED d nw it1)).
-  { intros f LS N. apply (RL_trans w (updd w d f)); [apply RL_dev, LS|]. apply RL_one, l_received.
-    rewrite (getd_updd_field d_kind w d f d); [exact N|]. intro y. apply LS. }
+  assert (NS : forall f, (let x := getd w d in d_kind (f x) = d_kind x /\ d_produced (f x) = d_produced x /\ d_level (f x) = d_level x /\
+                                    d_accepts (f x) = 1 + d_accepts x /\ (d_kind x = KSink -> d_value_received (f x) = item_value it1 + d_value_received x)) ->
+               RL w (rec_part (updd w d f) L_RECEIVED d nw it1)).
+  { intros f F. apply RL_one, l_accept. cbv zeta. rewrite getd_updd, Z.eqb_refl. cbn [andb].
+    cbv zeta in F. destruct F as [F1 [F2 [F3 [F4 F5]]]].
+    destruct (amem d (f_devs w)) eqn:AM; [repeat split; auto|].
+    repeat split; try reflexivity; [discriminate|].
+    intro KS. exfalso. assert (AM' : amem d (f_devs w) = true) by (apply not_blank_amem; intro E; rewrite E in KS; discriminate). congruence. }
   destruct k.
-  all: try (apply NS; [kl|rewrite <- K; discriminate]).
+  all: try (apply NS; cbv zeta; destruct (accept_fields nw it1 (getd w d)) as [A1 [A2 [A3 [A4 A5]]]]; unfold t_accept_proc; cbn [d_kind d_produced d_level d_accepts d_value_received];
+            repeat split; auto; intro KS; exfalso; congruence).
   - (* buffer *)
-    cbv zeta. eapply RL_trans; [apply RL_one, (l_accept_buffer nw w d it1)|]. cbv zeta. apply RL_one, l_received.
-    change (getd (data ?a ?b ?c ?e) d) with (getd a d).
-    rewrite (getd_updd_field d_kind w d (t_accept_buffer nw it1) d); [rewrite <- K; discriminate|].
-    intro y. unfold t_accept_buffer, t_accept, dev_set_wait. destruct (d_wait_since y); reflexivity.
+    apply RL_one, (l_accept_buffer nw w d it1). symmetry. exact K.
   - (* sink *)
-    apply RL_one, l_accept_sink; [|symmetry; exact K].
-    apply not_blank_amem. intro E. rewrite E in K. discriminate.
+    apply NS. cbv zeta. unfold t_accept_sink, dev_add_value. cbv zeta.
+    destruct (accept_fields nw it1 (getd w d)) as [A1 [A2 [A3 [A4 A5]]]].
+    destruct (item_value it1 =? 0); cbn [d_kind d_produced d_level d_accepts d_value_received]; repeat split; auto; intros _; rewrite A5; reflexivity.
 Qed.
 
 Lemma RL_accept fuel w d it : RL w (accept fuel nw w d it).
